@@ -73,6 +73,11 @@ CHECKS = {
    note=TB + "Proved: the invariant/certificate half (dual feasibility, stationarity, PD) and that convergence of the solver is exactly the slackness condition. Not proved: that the KKT point is the unique minimiser of the slack-regularised LogDet problem (convex-analysis lift) — that clause is carried by the per-run certificate only.",
    technique="Lean 4 proof (loop invariant by induction, Sherman–Morrison / PosDef algebra on the executable model) + Float-twin replay of real fits",
    ref="§6 C11"),
+ 'C14': dict(
+   text="Theorems over ℝ, all sizes: the flattened constraint w·A equals the sum of squared learned distances over the similar pairs and the budget t is one hundredth of it under the initial matrix; the half-space projection lands on the budget (w·P(A) ≤ t, = t from outside); the PSD projection V·max(0,l)·Vᵀ is symmetric PSD for ANY eigen-solver output; passing the 1 % test gives Σ_S d² < 1.01·t; invariant over cycles of the accept/shrink loop (for arbitrary projection / objective / direction maps): once the first cycle's projections converge, the stored A_old returned by fit is always an iterate that came out of a successful projection — hence PSD and within the budget; the first projection is applied to the init matrix; every diagonal-variant candidate is max(0,·) ≥ 0; a non-finite objective raises ValueError. Tie: Float twins of the budget/1 % test, half-space and PSD projections, _fD, _fD1, _grad_projection and _D_objective compared with the real helper methods on every instance; oracle on real MMC / MMC_Supervised fits for all init options, both variants (PSD, A_ round trip, budget with t recomputed from the captured init, diagonal non-negativity, never NaN).",
+   note=TB + "np.linalg.eigh inside the PSD projection is external. Fits whose first cycle exhausts max_proj without converging are outside the property's quantifier ('max_proj large enough') and are counted, not judged; the full projected-gradient trajectory is not replayed (only its helper functions and the loop invariant).",
+   technique="Lean 4 proof (projection identities, abstract loop invariant) + Float twins of the helper functions + oracle on real fits",
+   ref="§6 C14"),
 }
 
 NOT_YET = {}
